@@ -19,7 +19,7 @@ META = {
     "for-loop templates (all query tuples x iterable forms x loop filters x else x recursive trees, sync and async)",
     "text": "State graph: transitions advance + 15 queries (index index0 revindex revindex0 first last length previtem "
     "nextitem depth depth0 cycle/2 cycle/3 changed(item key) changed(const)) on LoopContext over list, tuple, "
-    "iter(list), generator, dict-keys view and on AsyncLoopContext over the same plus an async generator, lengths 0-6 "
+    "iter(list), generator, dict-keys view, unsized re-iterable class and on AsyncLoopContext over the same plus an async generator and an async re-iterable class, lengths 0-6 "
     "(quick 0-4); canonical state = (done, index0, peeked item, cached length, items still in the iterator, _before, "
     "_current, _last_changed_value); every transition is compared with R-loop computed from (items, position) per the "
     "table in templates.rst 'For', and the implementation state with the model's abstraction, so the visited items "
@@ -29,7 +29,8 @@ META = {
     "enable_async environments; loops with else left through {% break %}/{% continue %} (loopcontrols extension, "
     "unconditional and conditional on the item): else iff no item passed the filter, break ends the visit sequence; "
     "loops whose only use of `loop` sits in a {% block scoped %} placed directly, inside if or inside with, alone and "
-    "nested in an outer loop that uses its own `loop`.",
+    "nested in an outer loop that uses its own `loop`; outer loops whose only use of `loop` is in an inner loop's filter "
+    "or else branch.  Iterable forms include unsized re-iterable classes (__iter__ / async-generator __aiter__, no __len__).",
     "note": "Queries are enabled only between the first successful advance and exhaustion (the loop body); items are "
     "distinct ints, changed() is fed item//2 so that equal consecutive keys occur; async code is driven to completion "
     "by hand (nothing suspends), a subset additionally through Template.render/asyncio.run.",
@@ -38,8 +39,36 @@ META = {
 
 QUERIES = ("index", "index0", "revindex", "revindex0", "first", "last", "length", "previtem", "nextitem",
            "depth", "depth0", "cycle2", "cycle3", "changed_item", "changed_const")
-SYNC_FORMS = ("list", "tuple", "iter", "gen", "view")
-ASYNC_FORMS = SYNC_FORMS + ("agen",)
+SYNC_FORMS = ("list", "tuple", "iter", "gen", "view", "reiter")
+ASYNC_FORMS = SYNC_FORMS + ("agen", "reaiter")
+UNSIZED = ("iter", "gen", "agen", "reiter", "reaiter")
+
+
+class ReIter:
+    """unsized iterable that can be iterated repeatedly (fresh iterator each time, no __len__)."""
+
+    def __init__(self, items):
+        self._items = list(items)
+
+    def __iter__(self):
+        return iter(list(self._items))
+
+    def __repr__(self):
+        return "ReIter(%r)" % (self._items,)
+
+
+class ReAIter:
+    """unsized async iterable that can be iterated repeatedly (__aiter__ is an async generator method)."""
+
+    def __init__(self, items):
+        self._items = list(items)
+
+    async def __aiter__(self):
+        for x in self._items:
+            yield x
+
+    def __repr__(self):
+        return "ReAIter(%r)" % (self._items,)
 UNDEF = ("undef",)
 MISSING = "missing"
 
@@ -153,6 +182,10 @@ def make_iterable(form, items):
         return (x for x in items)
     if form == "view":
         return dict.fromkeys(items).keys()
+    if form == "reiter":
+        return ReIter(items)
+    if form == "reaiter":
+        return ReAIter(items)
     if form == "agen":
         async def agen():
             for x in items:
@@ -285,7 +318,7 @@ def mc_shard(arg) -> core.Part:
                       "history": h}, cap=1)
     for kind, hist, op, a, b in res.violations:
         what = op[0] if op else "init"
-        unsized = form in ("iter", "gen", "agen")
+        unsized = form in UNSIZED
         p.violation(f"C07/mc/{tag}/{kind}/{what}/{'unsized' if unsized else 'sized'}", {
             "msg": f"{tag} LoopContext over {form} of {n} items, history={[o[-1] for o in hist]} op={op}: "
                    f"impl {a!r} != R-loop {b!r}",
@@ -397,7 +430,9 @@ def _tmpl_script(src, is_async, setup):
 def _flat_setup(form, n, keep):
     body = {"list": "seq = items", "tuple": "seq = tuple(items)", "iter": "seq = iter(items)",
             "gen": "seq = (x for x in items)", "view": "seq = dict.fromkeys(items).keys()",
-            "agen": "async def _ag():\n    for x in items:\n        yield x\nseq = _ag()"}[form]
+            "agen": "async def _ag():\n    for x in items:\n        yield x\nseq = _ag()",
+            "reiter": "class R:\n    def __iter__(self):\n        return iter(list(items))\nseq = R()",
+            "reaiter": "class R:\n    async def __aiter__(self):\n        for x in items:\n            yield x\nseq = R()"}[form]
     return (f"items = {items_of(n)!r}\n{body}\nvars = dict(seq=seq, keep={set(keep) if keep is not None else None!r})\n")
 
 
@@ -431,7 +466,7 @@ def tmpl_shard(arg) -> core.Part:
                                 got = ("exc", type(e).__name__, str(e)[:80])
                             p.evals += 1
                             if got != want:
-                                unsized = filt or form in ("iter", "gen", "agen")
+                                unsized = filt or form in UNSIZED
                                 p.violation(f"C07/tmpl/{tag}/{'+'.join(sorted(set(queries)))}/"
                                             f"{'filter' if filt else 'nofilter'}/{'unsized' if unsized else 'sized'}", {
                                     "msg": f"{tag} {src!r} over {form} {items} keep={sorted(keep) if keep is not None else None}: "
@@ -709,6 +744,84 @@ def blk_shard(arg) -> core.Part:
     return p
 
 
+# outer `loop` used only in an inner loop's filter / else branch ------------------------
+
+
+def outer_source(query, where):
+    q = Q_SRC[query]
+    if where == "filter":
+        return ("{% for x in seq %}<{% for y in inner[x] if rec(" + q + ") %}{{ y }},{% endfor %}>{% endfor %}")
+    return "{% for x in seq %}<{% for y in inner[x] %}{{ y }},{% else %}{{ " + q + " }}{% endfor %}>{% endfor %}"
+
+
+def ref_outer(n, query, where):
+    """CALIBRATED scope rule (compiler: test and else frames are children of the enclosing frame): an inner
+    loop's filter and else branch see the enclosing loop's `loop`; its values are R-loop of the outer loop."""
+    items = items_of(n)
+    rl = RefLoop(items)
+    out, recorded = [], []
+    for pos, x in enumerate(items):
+        rl.pos = pos
+        if where == "filter":
+            for _y in (1, 2):
+                recorded.append(fmt(rl.query(query, x // 2)))
+            out.append("<1,2,>")
+        elif x % 2:
+            out.append("<1,2,>")
+        else:
+            out.append("<" + fmt(rl.query(query, x // 2)) + ">")
+    return "".join(out), recorded
+
+
+def outer_shard(arg) -> core.Part:
+    is_async, nmax = arg
+    import jinja2
+    from jinja2.runtime import Undefined
+
+    p = core.Part()
+    tag = "async" if is_async else "sync"
+    forms = ASYNC_FORMS if is_async else SYNC_FORMS
+    outs = set()
+    k = 0
+    for query in QUERIES:
+        for where in ("filter", "else"):
+            src = outer_source(query, where)
+            tmpl = jinja2.Environment(enable_async=is_async).from_string(src)
+            for n in range(nmax + 1):
+                items = items_of(n)
+                want = ref_outer(n, query, where)
+                for form in forms:
+                    k += 1
+                    recorded = []
+
+                    def rec(v, recorded=recorded):
+                        recorded.append("U" if isinstance(v, Undefined) else str(v))
+                        return True
+
+                    inner = {x: ([1, 2] if where == "filter" or x % 2 else []) for x in items}
+                    try:
+                        got = (render(tmpl, is_async, is_async and k % 8 == 0, seq=make_iterable(form, items),
+                                      inner=inner, rec=rec), recorded)
+                    except Exception as e:  # noqa: BLE001
+                        got = ("exc", type(e).__name__, str(e)[:80])
+                    p.evals += 1
+                    if got != want:
+                        p.violation(f"C07/outer-loop-in-inner-{where}/{tag}/{query}", {
+                            "msg": f"{tag} {src!r} over {form} of {n} items: got {got!r}, expected (output, values seen by rec) {want!r}",
+                            "script": ("import jinja2\nseen = []\n"
+                                       "def rec(v):\n    seen.append(str(v))\n    return True\n"
+                                       f"items = {items!r}\ninner = {inner!r}\n"
+                                       f"env = jinja2.Environment(enable_async={is_async!r})\n"
+                                       f"print(repr(env.from_string({src!r}).render(seq=list(items), inner=inner, rec=rec)), seen)\n")})
+                outs.add(repr(want))
+    p.sample({"kind": "outer loop variable used only in the inner loop's filter", "env": tag,
+              "source": outer_source("revindex", "filter"), "expected over [10,11]": list(ref_outer(2, "revindex", "filter"))}, cap=1)
+    for o in outs:
+        p.sig(("outer", o))
+    p.count("outer_scope_renders", p.evals)
+    return p
+
+
 def chunks(xs, n):
     k = max(1, (len(xs) + n - 1) // n)
     return [xs[i:i + k] for i in range(0, len(xs), k)]
@@ -725,6 +838,8 @@ def run(ctx: core.Ctx):
         "loop attributes are only defined inside the loop body: queries are enabled after the first item was handed out and before exhaustion",
         "async loop contexts and async renders are driven by hand with coro.send(None); nothing suspends; every 16th async render also goes through Template.render (asyncio.run)",
         "items are distinct ints; changed() is called with item//2 and with a constant",
+        "CALIBRATED: an inner loop's filter expression and else branch are evaluated in the enclosing loop's scope and see the "
+        "enclosing loop's `loop` (docs only say `loop` refers to the innermost loop)",
         "the model mirrors two unobservable cache bits (item peeked, length cached) only to state the correspondence of states",
     ]
     configs = [(a, f, n) for a in (False, True) for f in (ASYNC_FORMS if a else SYNC_FORMS) for n in range(nmax + 1)]
@@ -743,6 +858,7 @@ def run(ctx: core.Ctx):
     combos = [(c, q) for c in CTLS for q in (None,) + QUERIES]
     ctx.pmap(ctl_shard, [(a, c, nmax) for a in (False, True) for c in chunks(combos, 16)])
     ctx.pmap(blk_shard, [(a, nmax) for a in (False, True)])
+    ctx.pmap(outer_shard, [(a, nmax) for a in (False, True)])
     tr = ctx.counters.get("transitions", 0)
     ctx.cov["states"] = ctx.counters.get("states", 0)
     ctx.cov["transitions"] = tr
